@@ -799,4 +799,41 @@ func TestSyntaxFaults(t *testing.T) {
 	})
 }
 
+// TestMissingInput - a program whose 输入 statement names a value the host has not set: what is
+// being executed is that statement, wherever in the file it stands (after imports, comments
+// over several lines, blank lines)
+func TestMissingInput(t *testing.T) {
+	rapid.Check(t, func(t *rapid.T) {
+		eol := rapid.SampledFrom([]string{"\n", "\n", "\r\n", "\r"}).Draw(t, "eol")
+		var lines []string
+		for i, n := 0, rapid.IntRange(0, 6).Draw(t, "nbefore"); i < n; i++ {
+			switch rapid.IntRange(0, 4).Draw(t, "lk") {
+			case 0:
+				lines = append(lines, "注：说明")
+			case 1:
+				lines = append(lines, "")
+			case 2:
+				lines = append(lines, "/* 多行", "   注释 */")
+			case 3:
+				lines = append(lines, "// note")
+			default:
+				lines = append(lines, "注3：「说明", "文字」")
+			}
+		}
+		// imports come first in a program: move them to the front
+		var imports []string
+		if rapid.Bool().Draw(t, "import") {
+			imports = append(imports, "导入《@JSON》")
+		}
+		lines = append(imports, lines...)
+		names := rapid.SampledFrom([]string{"甲", "甲、乙", "宽字符变量、B、C"}).Draw(t, "names")
+		lines = append(lines, "输入"+names)
+		inputLine := len(lines)
+		lines = append(lines, "（显示：“到不了”）", "输出1")
+		c := rtCase{Src: strings.Join(lines, eol), Fault: "an input value the host has not set", Chain: []frame{{Module: "", Line: inputLine, Text: "输入" + names}}}
+		key, _ := json.Marshal(c)
+		h.R.Case(t, "runtime", string(key), c, []string{"fault-missing-input-value"}, inputLine >= 2, checkRuntime(c))
+	})
+}
+
 func TestCorpus(t *testing.T) { h.RunCorpus(t, "c18", replay) }
